@@ -44,7 +44,8 @@ def drop_attrs_and_docs(text):
             i = k
             continue
         out.append(text[i]); i += 1
-    return ''.join(out)
+    # whole-line comments (doc comments included) carry no code
+    return '\n'.join(l for l in ''.join(out).split('\n') if not l.lstrip().startswith('//'))
 
 def widen_pub(text, kind):
     """X4: make the item and (for structs) its fields pub."""
